@@ -60,6 +60,8 @@ def op_strategy(kind, none_p=True, bulk_empty=True, heavy=True, only=None):
         (2, "set_node_attributes", setattr_modes(n).map(lambda t: ["set_node_attributes"] + list(t))),
         (7, "add_edge", st.tuples(st.just("add_edge"), mem, ct, st.none(), a).map(list)),
         (5, "add_edge", st.tuples(st.just("add_edge"), mem, ct, e, a).map(list)),
+        # ['=', k]: the members of the k-th existing edge (a duplicate edge on purpose), under a drawn ID
+        (3, "add_edge", st.tuples(st.just("add_edge"), st.tuples(st.just("="), st.integers(0, 11)).map(list), ct, st.one_of(st.none(), e), a).map(list)),
         (2, "add_edges_from", bulk(1)),
         (2, "add_edges_from", bulk(2)),
         (2, "add_edges_from", bulk(3)),
@@ -162,6 +164,9 @@ def concretise(H, op):
     op = copy.deepcopy(op)
     if name == "add_edge":
         op[3] = r(op[3])
+        if len(op[1]) == 2 and op[1][0] == "=" and isinstance(op[1][1], int):
+            ms = list(H._edge.values())
+            op[1] = sorted(ms[op[1][1] % len(ms)], key=repr) if ms else [0]
     elif name == "add_edges_from":
         fmt = op[1]
         for it in op[2]:
